@@ -217,7 +217,10 @@ pub fn run(ctx: &Ctx) -> Report {
     let mut rng = Rng::derive(ctx.seed, 0xC07);
     for spec in panels_for(ctx) {
         let syms = syms(spec);
-        let maxlen = if ctx.tier_thorough { 2 } else { 1 };
+        // exhaustive length 2 also in the quick tier except on the largest panels; thorough adds length 3 on the small ones
+        let bigp = spec.w * spec.h > 300 * 400;
+        let smallp = spec.w * spec.h <= 200 * 200;
+        let maxlen = if ctx.tier_thorough { if smallp { 3 } else { 2 } } else if bigp { 1 } else { 2 };
         for color in 0..spec.color.count() {
             cases.push(Case { spec, h: vec![], color });
             for n in 1..=maxlen {
